@@ -364,11 +364,10 @@ func (fd *Client) Query(ctx context.Context, input *dynamodb.QueryInput, opt ...
 		return nil, &smithy.GenericAPIError{Code: "ValidationException", Message: "The table does not have the specified index: " + indexName}
 	}
 
-	if input.ScanIndexForward == nil {
-		input.ScanIndexForward = aws.Bool(true)
-	}
+	queryInput := mapDynamoToTypesQueryInput(input, indexName)
+	queryInput.ScanIndexForward = input.ScanIndexForward == nil || aws.ToBool(input.ScanIndexForward)
 
-	items, lastKey := table.SearchData(mapDynamoToTypesQueryInput(input, indexName))
+	items, lastKey := table.SearchData(queryInput)
 
 	count := int64(len(items))
 
